@@ -1293,7 +1293,7 @@ namespace bluetoe {
                 , end_( end )
                 , index_( details::handle_index_mapping< Server >::first_index_by_handle( starting_index ) )
                 , starting_index_( details::handle_index_mapping< Server >::first_index_by_handle( starting_handle ) )
-                , ending_index_( ending_handle )
+                , ending_handle_( ending_handle )
                 , stoped_( false )
                 , first_( true )
                 , is_128bit_uuid_( true )
@@ -1307,7 +1307,7 @@ namespace bluetoe {
             {
                 if ( !stoped_
                     && ( starting_index_ != details::invalid_attribute_index && starting_index_ <= index_ )
-                    && ( index_ <= ending_index_ || ending_index_ == details::invalid_attribute_index ) )
+                    && details::handle_index_mapping< Server >::handle_by_index( index_ ) <= ending_handle_ )
                 {
                     if ( first_ )
                     {
@@ -1333,7 +1333,7 @@ namespace bluetoe {
                   std::uint8_t*   end_;
                   std::size_t     index_;
             const std::size_t     starting_index_;
-            const std::size_t     ending_index_;
+            const std::uint16_t   ending_handle_;
                   bool            stoped_;
                   bool            first_;
                   bool            is_128bit_uuid_;
